@@ -8,8 +8,8 @@ From SPV Require Import Base.Str Model.Front Model.FrontSpec Gen.FactsFront Proo
    exactly one call, inside it every parameter is bound to its parsed value (bind_call = CPython's binding), the
    positional-only parameters are passed positionally in signature order, every other parameter exactly once by
    keyword, and the synthesised field list is a permutation of the parameters with the required ones first.
-   Side condition main_safe (boolean): no unhashable default, and (no bool parameter OR nothing bogus is forwarded to
-   the boolean action - today `name=` is, defect #18). *)
+   Side condition main_safe (boolean): no refused default (see C20_main_safe_full: only a dataclass-instance default is),
+   and (no bool parameter OR nothing bogus is forwarded to the boolean action: C20_nothing_bogus_forwarded). *)
 Theorem C20_main_partial : forall (V : Type) (s : sig V) (vals : string -> V),
   sig_wf s = true -> main_safe facts_gen s = true ->
   let c := main_call facts_gen s vals [] [] in
@@ -23,14 +23,14 @@ Print Assumptions C20_main_partial.
 
 (* what main_safe excludes, for today's facts *)
 Theorem C20_main_safe_plain : forall (V : Type) (s : sig V),
-  existsb (fun p => is_bool_ann (p_ann p)) s = false -> existsb (fun p => has_def p && p_mut p) s = false ->
+  existsb (fun p => is_bool_ann (p_ann p)) s = false -> existsb (fun p => has_def p && main_refuses facts_gen p) s = false ->
   main_safe facts_gen s = true.
 Proof. exact (@main_safe_when_plain). Qed.
 Print Assumptions C20_main_safe_plain.
 
 (* ... and when nothing bogus is forwarded bool parameters are covered *)
 Theorem C20_main_safe_when_fixed : forall (V : Type) (s : sig V),
-  main_bogus facts_gen = [] -> existsb (fun p => has_def p && p_mut p) s = false -> main_safe facts_gen s = true.
+  main_bogus facts_gen = [] -> existsb (fun p => has_def p && main_refuses facts_gen p) s = false -> main_safe facts_gen s = true.
 Proof. exact (@main_safe_when_nothing_bogus). Qed.
 Print Assumptions C20_main_safe_when_fixed.
 
@@ -42,16 +42,36 @@ Print Assumptions C20_nothing_bogus_forwarded.
 
 (* hence parameters of any supported type INCLUDING bool are inside C20_main_partial's domain *)
 Theorem C20_main_safe_incl_bool : forall (V : Type) (s : sig V),
-  existsb (fun p => has_def p && p_mut p) s = false -> main_safe facts_gen s = true.
+  existsb (fun p => has_def p && main_refuses facts_gen p) s = false -> main_safe facts_gen s = true.
 Proof. exact (fun V s => @main_safe_when_nothing_bogus V s C20_nothing_bogus_forwarded). Qed.
 Print Assumptions C20_main_safe_incl_bool.
 
-(* second, independent counterexample: an unhashable default, `def f(xs: List[int] = [1, 2])` *)
-Theorem C20_main_refuted_mutable_default :
-  main_run facts_gen [mkparam "xs" PosOrKw AList (Some "[1,2]") true] (Ok (fun _ => "x")) [] []
+(* list / dict / set defaults (fix: commits 4e8d91f, 91c405f in /repo) are wrapped into a deep-copying default_factory by both
+   front-ends: regenerated facts.  Reverting either fix makes this theorem (and the two after it) stop holding. *)
+Theorem C20_container_defaults_copied :
+  f_main_copied facts_gen = [KList; KDict; KSet] /\ f_cf_copied facts_gen = [KList; KDict; KSet].
+Proof. exact (conj gen_main_copied gen_cf_copied). Qed.
+Print Assumptions C20_container_defaults_copied.
+
+(* hence C20_main_partial covers EVERY signature whose defaults are hashable or list/dict/set (any parameter type, bool
+   included); the only exclusion left is another unhashable default, i.e. an instance of a non-frozen dataclass *)
+Theorem C20_main_safe_full : forall (V : Type) (s : sig V),
+  existsb (fun p => has_def p && is_mut_other (p_mut p)) s = false -> main_safe facts_gen s = true.
+Proof. exact (fun V s => @main_safe_full V s C20_nothing_bogus_forwarded). Qed.
+Print Assumptions C20_main_safe_full.
+
+(* the remaining counterexample (known finding): a dataclass-instance default, `def f(cfg: Cfg = Cfg())` *)
+Theorem C20_main_refuted_dataclass_instance_default :
+  main_run facts_gen [mkparam "cfg" PosOrKw ADc (Some "Cfg()") MutOther] (Ok (fun _ => "x")) [] []
   = (None, Err (Raise "ValueError")).
 Proof. exact main_mutable_outcome. Qed.
-Print Assumptions C20_main_refuted_mutable_default.
+Print Assumptions C20_main_refuted_dataclass_instance_default.
+(* ... while a list default is inside the domain: set-up succeeds and the parameter receives its parsed value *)
+Theorem C20_main_list_default_ok :
+  main_run facts_gen [mkparam "xs" PosOrKw AList (Some "[1,2]") (MutC KList)] (Ok (fun _ => "[1,2]")) [] []
+  = (Some (mkcall [] [("xs", "[1,2]")]), Ok [("xs", "[1,2]")]).
+Proof. vm_compute. reflexivity. Qed.
+Print Assumptions C20_main_list_default_ok.
 
 (* the model's behaviour satisfies the executable spec the correspondence run evaluates on observed behaviour *)
 Theorem C20_main_meets_spec : forall (V : Type) (veqb : V -> V -> bool) (s : sig V) (parsed : res (string -> V)),
@@ -102,6 +122,13 @@ Theorem C20_inferred_bool_stays_bool :
   infer (f_infer facts_gen) DBool = IB TBool /\ infer (f_infer facts_gen) (DTuple [DBool; DInt]) = ITuple [IB TBool; IB TInt].
 Proof. exact (conj (inferred_is_builtin_type DBool) (inferred_is_builtin_type (DTuple [DBool; DInt]))). Qed.
 Print Assumptions C20_inferred_bool_stays_bool.
+
+(* class creation succeeds for EVERY signature whose defaults are hashable or list/dict/set *)
+Theorem C20_config_for_setup_full : forall (V : Type) (s : sig V) ignore over,
+  existsb (fun p => has_def p && is_mut_other (p_mut p)) s = false ->
+  setup facts_gen (cf_fields facts_gen ignore over s) = Ok tt.
+Proof. exact (fun V s ignore over H => @config_for_setup V s ignore over (@cf_no_refusal V s ignore over H)). Qed.
+Print Assumptions C20_config_for_setup_full.
 
 (* ---- Partial.__call__ -----------------------------------------------------------------------------------------
    For EVERY field list, values and call-site arguments: the callable is invoked with the call-site positionals and
@@ -177,9 +204,9 @@ Print Assumptions C20_cached_refuted.
 
 (* non-vacuity: a signature with positional-only, defaulted and keyword-only parameters inside the theorems' domain *)
 Example C20_nonvacuous :
-  let s : sig string := [mkparam "a" PosOnly AInt None false; mkparam "b" PosOnly AFloat (Some "2.0") false;
-                         mkparam "c" PosOrKw AStr (Some "c") false; mkparam "d" KwOnly AInt None false;
-                         mkparam "e" KwOnly AInt (Some "5") false] in
+  let s : sig string := [mkparam "a" PosOnly AInt None Immut; mkparam "b" PosOnly AFloat (Some "2.0") Immut;
+                         mkparam "c" PosOrKw AStr (Some "c") Immut; mkparam "d" KwOnly AInt None Immut;
+                         mkparam "e" KwOnly AInt (Some "5") Immut] in
   let vals := fun n => ("v_" ++ n)%string in
   sig_wf s = true /\ main_safe facts_gen s = true
   /\ map fl_name (main_fields facts_gen s) = ["a"; "d"; "b"; "c"; "e"]
